@@ -78,6 +78,7 @@ type consumeResult struct {
 	Items int
 	Canon string
 	Trees itemsOut
+	Decoded [][3]string
 }
 
 func consumeAny(c *arrow_record.Consumer, signal string, bar *colarspb.BatchArrowRecords) (res consumeResult) {
@@ -95,6 +96,7 @@ func consumeAny(c *arrow_record.Consumer, signal string, bar *colarspb.BatchArro
 			res.Items += td.SpanCount()
 			res.Canon += canonTraces(td)
 			res.Trees = tracesItems(td)
+			res.Decoded = decodedTraces(td)
 		}
 		if e == nil && len(tds) == 0 {
 			res.Items = -1
@@ -105,6 +107,7 @@ func consumeAny(c *arrow_record.Consumer, signal string, bar *colarspb.BatchArro
 		for _, ld := range lds {
 			res.Items += ld.LogRecordCount()
 			res.Trees = logsItems(ld)
+			res.Decoded = decodedLogs(ld)
 		}
 		if e == nil && len(lds) == 0 {
 			res.Items = -1
